@@ -13,6 +13,8 @@ const CONFIGS: &[&str] = &[
     "{rules: [{rule: 'remove_comments', skip_files: '**/solo.lua'}], bundle: {require_mode: 'path'}}",
     "{rules: ['remove_comments'], generator: 'dense', bundle: {require_mode: 'path'}}",
     "{rules: ['remove_comments', 'remove_empty_do']}",
+    // files excluded at the top level: nothing is written for them (and what an earlier configuration wrote goes away)
+    "{rules: ['remove_comments'], skip_files: ['**/solo.lua', 'src/pkg/**'], bundle: {require_mode: 'path'}}",
 ];
 
 fn initial_files() -> Vec<(&'static str, String)> {
@@ -68,6 +70,7 @@ pub const EVENTS: &[Event] = &[
     Event::SetConfig(3),
     Event::SetConfig(4),
     Event::SetConfig(0),
+    Event::SetConfig(5),
     Event::Spurious("src/main.lua"),
     Event::Spurious("src/lib"),
 ];
@@ -380,6 +383,8 @@ fn judge_hiding(w: &World, hidden: Option<&str>) -> Vec<String> {
         } else {
             match (fresh_files.get(&out), files.get(&out)) {
                 (Some(a), Some(b)) if a == b => {}
+                // a source that the configuration excludes has no output in either run
+                (None, None) => {}
                 (a, b) => problems.push(format!("{} differs from a fresh run\n    fresh:       {:?}\n    incremental: {:?}", out, a, b)),
             }
         }
